@@ -20,6 +20,8 @@ pub enum Op {
     Construct,
     /// solve for exactly n iterations (n = 0: one iteration)
     Solve(u64),
+    /// the user multiplies the planner's public step / radius fields by this factor
+    ScaleParams(f64),
 }
 impl Op {
     pub fn to_json(&self) -> Value {
@@ -29,6 +31,7 @@ impl Op {
             Op::SetPd(i) => json!({"set_pd": i}),
             Op::Construct => json!("construct"),
             Op::Solve(n) => json!({"solve": n}),
+            Op::ScaleParams(f) => json!({"scale_params": f}),
         }
     }
     pub fn from_json(v: &Value) -> Op {
@@ -38,6 +41,8 @@ impl Op {
             Op::Setup(i.as_u64().unwrap() as usize)
         } else if let Some(i) = v.get("set_pd") {
             Op::SetPd(i.as_u64().unwrap() as usize)
+        } else if let Some(f) = v.get("scale_params") {
+            Op::ScaleParams(f.as_f64().unwrap_or(1.0))
         } else if let Some(n) = v.get("solve") {
             Op::Solve(n.as_u64().unwrap())
         } else {
@@ -51,6 +56,7 @@ impl Op {
             Op::SetPd(i) => format!("set_pd(P{})", i + 1),
             Op::Construct => "construct".into(),
             Op::Solve(n) => format!("solve({n})"),
+            Op::ScaleParams(f) => format!("step*={f}"),
         }
     }
 }
@@ -104,6 +110,9 @@ pub struct CallRec {
     pub samples: u64,
     pub queries: u64,
     pub clock_reads: u64,
+    /// the largest C05 limit (step / radius) configured at any time since the last setup
+    /// (PRM: since the roadmap was last built) - edges created earlier may be that long
+    pub step_limit_since_setup: f64,
 }
 
 pub fn run_history<K: Kit>(kit: &K, h: &History, keep_events: bool, budget: u64) -> Result<(Drv<K>, Vec<CallRec>), String> {
@@ -122,6 +131,7 @@ pub fn run_history<K: Kit>(kit: &K, h: &History, keep_events: bool, budget: u64)
         None => SampleMode::PlannerRng,
     };
     let mut recs = vec![];
+    let mut limit_since_setup = h.params.step_limit();
     let mut pd: Option<usize> = None;
     let mut checker: Option<usize> = None;
     // problem-definition objects are created once per problem and re-used (same Arc)
@@ -177,7 +187,15 @@ pub fn run_history<K: Kit>(kit: &K, h: &History, keep_events: bool, budget: u64)
                 d.construct_roadmap(true)
             }
             Op::Solve(n) => d.solve_iters(*n),
+            Op::ScaleParams(f) => {
+                d.scale_params(*f);
+                limit_since_setup = limit_since_setup.max(d.params.step_limit());
+                Res::Done
+            }
         };
+        if matches!(op, Op::Setup(_) | Op::SetupMixed(..)) {
+            limit_since_setup = d.params.step_limit();
+        }
         let (s1, q1) = {
             let l = d.log.borrow();
             (l.n_uniform + l.n_goal_sample, l.n_valid)
@@ -199,6 +217,7 @@ pub fn run_history<K: Kit>(kit: &K, h: &History, keep_events: bool, budget: u64)
             samples: s1 - s0,
             queries: q1 - q0,
             clock_reads: d.last_call_clock_reads,
+            step_limit_since_setup: limit_since_setup,
         });
         if panicked {
             // the planner may be in an arbitrary state after unwinding: stop the history
